@@ -371,19 +371,39 @@ fn compare(m: &Small, layered: bool, res: &Dec, log: &[Call], reference: &RefRun
     Ok(())
 }
 
+/// A generic decoder with a probing arithmetic, kept alive across calls.
+enum Live<A: DecoderArithmetic> {
+    Flood(flooding::Decoder<Probe<A>>),
+    Layer(horizontal_layered::Decoder<Probe<A>>),
+}
+
+struct Probed<A: DecoderArithmetic> {
+    dec: Live<A>,
+    log: Arc<Mutex<Vec<Call>>>,
+}
+
+impl<A: DecoderArithmetic> Probed<A> {
+    fn new(inner: A, h: ldpc_toolbox::sparse::SparseMatrix, layered: bool, force: Option<usize>) -> Probed<A> {
+        let log = Arc::new(Mutex::new(Vec::new()));
+        let n = h.num_cols();
+        let p = Probe { inner, n, counter: Cell::new(0), force, log: log.clone() };
+        let dec = if layered { Live::Layer(horizontal_layered::Decoder::new(h, p)) } else { Live::Flood(flooding::Decoder::new(h, p)) };
+        Probed { dec, log }
+    }
+    /// One decode call; returns the result and the calls logged during it.
+    fn decode(&mut self, llrs: &[f64], limit: usize) -> Result<(Dec, Vec<Call>), String> {
+        self.log.lock().unwrap().clear();
+        let res = match &mut self.dec {
+            Live::Flood(d) => guard(|| d.decode(llrs, limit))?,
+            Live::Layer(d) => guard(|| d.decode(llrs, limit))?,
+        };
+        let l = self.log.lock().unwrap().clone();
+        Ok((res, l))
+    }
+}
+
 fn run_probe<A: DecoderArithmetic + Clone + 'static>(inner: A, h: ldpc_toolbox::sparse::SparseMatrix, layered: bool, force: Option<usize>, llrs: &[f64], limit: usize) -> Result<(Dec, Vec<Call>), String> {
-    let log = Arc::new(Mutex::new(Vec::new()));
-    let n = h.num_cols();
-    let p = Probe { inner, n, counter: Cell::new(0), force, log: log.clone() };
-    let res = if layered {
-        let mut d = horizontal_layered::Decoder::new(h, p);
-        guard(|| d.decode(llrs, limit))?
-    } else {
-        let mut d = flooding::Decoder::new(h, p);
-        guard(|| d.decode(llrs, limit))?
-    };
-    let l = log.lock().unwrap().clone();
-    Ok((res, l))
+    Probed::new(inner, h, layered, force).decode(llrs, limit)
 }
 
 struct Case {
@@ -432,6 +452,9 @@ fn llr_vectors(n: usize, alpha: &[i64]) -> Vec<Vec<f64>> {
 }
 
 fn equality_case(case: &Case, alpha: &[i64], limits: &[usize], acc: &mut Acc) {
+    // one long-lived decoder per schedule: every call after the first is made on an object
+    // that has already decoded other frames (the textbook result does not depend on history)
+    let mut reused = [Probed::new(IntMinSum, build(case), false, None), Probed::new(IntMinSum, build(case), true, None)];
     for llrs in llr_vectors(case.m.n, alpha) {
         for &limit in limits {
             for layered in [false, true] {
@@ -448,6 +471,21 @@ fn equality_case(case: &Case, alpha: &[i64], limits: &[usize], acc: &mut Acc) {
                         }
                         if reference.iters >= 1 {
                             acc.nontrivial += 1;
+                        }
+                        // the same call on the long-lived decoder
+                        match reused[layered as usize].decode(&llrs, limit) {
+                            Err(e) => {
+                                acc.violate(key, format!("decode on a reused decoder panicked: {}", e), replay);
+                                reused[layered as usize] = Probed::new(IntMinSum, build(case), layered, None);
+                                continue;
+                            }
+                            Ok((res2, log2)) => {
+                                if let Err(e) = compare(&case.m, layered, &res2, &log2, &reference) {
+                                    acc.violate(key, format!("on a decoder object that has decoded earlier frames: {}", e), replay);
+                                    continue;
+                                }
+                                acc.count("calls_on_reused_decoder");
+                            }
                         }
                         // plain (unwrapped) user arithmetic as well
                         let plain = if layered {
@@ -750,7 +788,7 @@ pub fn run(run: &Run) -> i32 {
         run,
         acc,
         Coverage {
-            rule: "equality clause: generic flooding and layered decoders instantiated with a checker-supplied exact integer min-sum arithmetic inside a probing wrapper (tags every LLR with its variable index, logs every trait call with arguments and results); every matrix with row weights >= 2 of shapes 2x3 (EVERY insertion order of its entries), 2x4, 3x4 (three scrambled insertion orders) and six named matrices x LLR in an integer alphabet ^n x limits {0..4}; verdict/word/iterations AND the normalised call log (one check update per row then one variable update per column per flooding iteration; row-ordered single-check updates with the variable vector seen at call time for layered) must equal a textbook implementation. Exactness clause: every forest (reference acyclicity test) with check degree >= 2 of the listed shapes, all labellings, LLR in {-2.5,-0.7,0.3,1.1,4}^n (3-value sub-alphabet for the largest shapes) with non-codeword sign pattern, Phif64 and Tanhf64 inside a forcing wrapper (syndrome test always fails), both schedules, limits = diameter and = number of nodes: final per-bit LLR vs brute-force posterior within 1e-9 rel + 1e-9 abs. Non-trivial = at least one iteration run.".into(),
+            rule: "equality clause: generic flooding and layered decoders instantiated with a checker-supplied exact integer min-sum arithmetic inside a probing wrapper (tags every LLR with its variable index, logs every trait call with arguments and results); every matrix with row weights >= 2 of shapes 2x3 (EVERY insertion order of its entries), 2x4, 3x4 (three scrambled insertion orders) and six named matrices x LLR in an integer alphabet ^n x limits {0..4}; verdict/word/iterations AND the normalised call log (one check update per row then one variable update per column per flooding iteration; row-ordered single-check updates with the variable vector seen at call time for layered) must equal a textbook implementation, both on a fresh decoder and on one long-lived decoder per (matrix, schedule) that has already decoded all earlier frames of the enumeration. Exactness clause: every forest (reference acyclicity test) with check degree >= 2 of the listed shapes, all labellings, LLR in {-2.5,-0.7,0.3,1.1,4}^n (3-value sub-alphabet for the largest shapes) with non-codeword sign pattern, Phif64 and Tanhf64 inside a forcing wrapper (syndrome test always fails), both schedules, limits = diameter and = number of nodes: final per-bit LLR vs brute-force posterior within 1e-9 rel + 1e-9 abs. Non-trivial = at least one iteration run.".into(),
             exhaustive: true,
             extra,
             graph: None,
